@@ -11,6 +11,31 @@ pub fn validate_materialized_module(
     module_id: &str,
     materialized_root: &Path,
 ) -> anyhow::Result<()> {
+    // A backslash is an ordinary file-name character on Unix but a separator on Windows, and
+    // relative paths are normalised with `replace('\\', "/")` when outputs and target manifests are
+    // written.  Such a name would be re-read as a path (`..\x` would leave the target root).
+    for file in list_files(materialized_root)? {
+        let rel = file.strip_prefix(materialized_root).unwrap_or(&file);
+        if rel
+            .components()
+            .any(|c| c.as_os_str().to_string_lossy().contains('\\'))
+        {
+            return Err(anyhow::Error::new(
+                UserError::new(
+                    "E_CONFIG_INVALID",
+                    format!(
+                        "module {module_id} contains a file or directory name with a backslash: {}",
+                        rel.display()
+                    ),
+                )
+                .with_details(serde_json::json!({
+                    "module_id": module_id,
+                    "path": rel.to_string_lossy(),
+                })),
+            ));
+        }
+    }
+
     match module_type {
         ModuleType::Instructions => {
             let agents = materialized_root.join("AGENTS.md");
